@@ -24,11 +24,11 @@ use p3_commit::Pcs;
 use p3_field::{BasedVectorSpace, ExtensionField, Field, PrimeField64};
 use p3_recursion::pcs::fri::{
     BatchOpeningTargets, FriProofTargets, HashProofTargets, HidingFriProofTargets, HidingHashProofTargets,
-    MerkleCapTargets, Witness,
+    MerkleCapTargets, QueryProofTargets, Witness,
 };
 use p3_recursion::public_inputs::{BatchStarkVerifierInputsBuilder, StarkVerifierInputsBuilder};
 use p3_recursion::traits::{Recursive, RecursiveExtensionMmcs, RecursiveMmcs};
-use p3_recursion::types::{CommitmentTargets, OpenedValuesTargets, OpenedValuesTargetsWithLookups};
+use p3_recursion::types::{CommitmentTargets, OpenedValuesTargets, OpenedValuesTargetsWithLookups, ProofTargets};
 use p3_recursion::Target;
 use p3_uni_stark::StarkGenericConfig;
 use serde_json::Value;
@@ -130,18 +130,29 @@ impl<F, const DIGEST_ELEMS: usize> MmcsProofWalk for HidingHashProofTargets<F, D
 /// `OpenedValues { trace_local, trace_next?, preprocessed_local?, preprocessed_next?,
 /// quotient_chunks[chunk][j], random? }`, every element an extension value.
 fn walk_opened_values<SC: StarkGenericConfig>(w: &mut Walk, path: &str, ov: &OpenedValuesTargets<SC>) {
-    w.ext_vec(&format!("{path}/trace_local"), &ov.trace_local_targets);
-    w.ext_vec(&format!("{path}/trace_next"), &ov.trace_next_targets);
-    if let Some(p) = &ov.preprocessed_local_targets {
+    // exhaustive destructuring (here and below, wherever all fields are public): a field added to
+    // the repository's structure stops this file from compiling instead of being silently skipped
+    let OpenedValuesTargets {
+        trace_local_targets,
+        trace_next_targets,
+        preprocessed_local_targets,
+        preprocessed_next_targets,
+        quotient_chunks_targets,
+        random_targets,
+        _phantom: _,
+    } = ov;
+    w.ext_vec(&format!("{path}/trace_local"), trace_local_targets);
+    w.ext_vec(&format!("{path}/trace_next"), trace_next_targets);
+    if let Some(p) = preprocessed_local_targets {
         w.ext_vec(&format!("{path}/preprocessed_local"), p);
     }
-    if let Some(p) = &ov.preprocessed_next_targets {
+    if let Some(p) = preprocessed_next_targets {
         w.ext_vec(&format!("{path}/preprocessed_next"), p);
     }
-    for (c, chunk) in ov.quotient_chunks_targets.iter().enumerate() {
+    for (c, chunk) in quotient_chunks_targets.iter().enumerate() {
         w.ext_vec(&format!("{path}/quotient_chunks/{c}"), chunk);
     }
-    if let Some(r) = &ov.random_targets {
+    if let Some(r) = random_targets {
         w.ext_vec(&format!("{path}/random"), r);
     }
 }
@@ -163,15 +174,24 @@ fn walk_flattened_batch_opened_values<SC: StarkGenericConfig>(
     tree_instances: &Value,
 ) {
     let none: Vec<Target> = vec![];
-    let ov = &fl.opened_values_no_lookups;
+    let OpenedValuesTargetsWithLookups { opened_values_no_lookups: ov, permutation_local_targets, permutation_next_targets } = fl;
+    let OpenedValuesTargets {
+        trace_local_targets: _,
+        trace_next_targets: _,
+        preprocessed_local_targets: _,
+        preprocessed_next_targets: _,
+        quotient_chunks_targets: _,
+        random_targets: _,
+        _phantom: _,
+    } = ov;
     let fields: [(&str, bool, &[Target]); 7] = [
         ("trace_local", true, ov.trace_local_targets.as_slice()),
         ("trace_next", true, ov.trace_next_targets.as_slice()),
         ("preprocessed_local", true, ov.preprocessed_local_targets.as_ref().unwrap_or(&none).as_slice()),
         ("preprocessed_next", true, ov.preprocessed_next_targets.as_ref().unwrap_or(&none).as_slice()),
         ("random", true, ov.random_targets.as_ref().unwrap_or(&none).as_slice()),
-        ("permutation_local", false, fl.permutation_local_targets.as_slice()),
-        ("permutation_next", false, fl.permutation_next_targets.as_slice()),
+        ("permutation_local", false, permutation_local_targets.as_slice()),
+        ("permutation_next", false, permutation_next_targets.as_slice()),
     ];
     let n_inst = json_len(tree_instances);
     for (name, in_base, targets) in fields {
@@ -234,10 +254,11 @@ where
     Inner::Proof: MmcsProofWalk,
 {
     for (b, bo) in ip.iter().enumerate() {
-        for (m, row) in bo.opened_values.iter().enumerate() {
+        let BatchOpeningTargets { opened_values, opening_proof } = bo;
+        for (m, row) in opened_values.iter().enumerate() {
             w.base_vec(&format!("{path}/{b}/opened_values/{m}"), row);
         }
-        bo.opening_proof.walk(w, &format!("{path}/{b}/opening_proof"));
+        opening_proof.walk(w, &format!("{path}/{b}/opening_proof"));
     }
 }
 
@@ -256,16 +277,19 @@ where
     Inner::Proof: MmcsProofWalk,
 {
     fn walk(&self, w: &mut Walk, path: &str) {
-        for (i, c) in self.commit_phase_commits.iter().enumerate() {
+        // `log_arities` is shape metadata (usize), not a target
+        let FriProofTargets { commit_phase_commits, commit_pow_witnesses, query_proofs, final_poly, pow_witness, log_arities: _ } = self;
+        for (i, c) in commit_phase_commits.iter().enumerate() {
             walk_cap(w, &format!("{path}/commit_phase_commits/{i}"), c);
         }
-        for (i, pw) in self.commit_pow_witnesses.iter().enumerate() {
+        for (i, pw) in commit_pow_witnesses.iter().enumerate() {
             w.base(format!("{path}/commit_pow_witnesses/{i}"), pw.witness);
         }
-        for (q, qp) in self.query_proofs.iter().enumerate() {
+        for (q, qp) in query_proofs.iter().enumerate() {
             let qpath = format!("{path}/query_proofs/{q}");
-            walk_input_proof(w, &format!("{qpath}/input_proof"), &qp.input_proof);
-            for (s, step) in qp.commit_phase_openings.iter().enumerate() {
+            let QueryProofTargets { input_proof, commit_phase_openings } = qp;
+            walk_input_proof(w, &format!("{qpath}/input_proof"), input_proof);
+            for (s, step) in commit_phase_openings.iter().enumerate() {
                 let spath = format!("{qpath}/commit_phase_openings/{s}");
                 // sibling k is an extension value; the repository allocates one target per basis
                 // coefficient: coefficient c of sibling k  <->  sibling_values/k/value/c
@@ -276,8 +300,8 @@ where
                 step.opening_proof.walk(w, &format!("{spath}/opening_proof"));
             }
         }
-        w.ext_vec(&format!("{path}/final_poly"), &self.final_poly);
-        w.base(format!("{path}/query_pow_witness"), self.pow_witness.witness);
+        w.ext_vec(&format!("{path}/final_poly"), final_poly);
+        w.base(format!("{path}/query_pow_witness"), pow_witness.witness);
     }
 }
 
@@ -294,14 +318,15 @@ where
     Inner::Proof: MmcsProofWalk,
 {
     fn walk(&self, w: &mut Walk, path: &str) {
-        for (r, round) in self.random_opened_values.rounds.iter().enumerate() {
+        let HidingFriProofTargets { random_opened_values, inner_proof } = self;
+        for (r, round) in random_opened_values.rounds.iter().enumerate() {
             for (m, mat) in round.iter().enumerate() {
                 for (p, vals) in mat.iter().enumerate() {
                     w.ext_vec(&format!("{path}/0/{r}/{m}/{p}"), vals);
                 }
             }
         }
-        self.inner_proof.walk(w, &format!("{path}/1"));
+        inner_proof.walk(w, &format!("{path}/1"));
     }
 }
 
@@ -317,12 +342,13 @@ fn walk_commitments<F: Field, Comm: Recursive<F> + CapWords>(
     main_name: &str,
     c: &CommitmentTargets<F, Comm>,
 ) {
-    walk_cap(w, &format!("{path}/{main_name}"), &c.trace_targets);
-    if let Some(p) = &c.permutation_targets {
+    let CommitmentTargets { trace_targets, permutation_targets, quotient_chunks_targets, random_commit, _phantom: _ } = c;
+    walk_cap(w, &format!("{path}/{main_name}"), trace_targets);
+    if let Some(p) = permutation_targets {
         walk_cap(w, &format!("{path}/permutation"), p);
     }
-    walk_cap(w, &format!("{path}/quotient_chunks"), &c.quotient_chunks_targets);
-    if let Some(r) = &c.random_commit {
+    walk_cap(w, &format!("{path}/quotient_chunks"), quotient_chunks_targets);
+    if let Some(r) = random_commit {
         walk_cap(w, &format!("{path}/random"), r);
     }
 }
@@ -344,12 +370,13 @@ where
     OP: Recursive<SC::Challenge, Input = PcsProof<SC>> + OpeningProofWalk,
 {
     let mut w = Walk::default();
-    w.base_vec("/public_values", &inputs.air_public_targets);
-    let pt = &inputs.proof_targets;
-    walk_commitments(&mut w, "/proof/commitments", "trace", &pt.commitments_targets);
-    walk_opened_values(&mut w, "/proof/opened_values", &pt.opened_values_targets);
-    pt.opening_proof.walk(&mut w, "/proof/opening_proof");
-    if let Some(c) = &inputs.preprocessed_commit {
+    let StarkVerifierInputsBuilder { air_public_targets, proof_targets, preprocessed_commit } = inputs;
+    w.base_vec("/public_values", air_public_targets);
+    let ProofTargets { commitments_targets, opened_values_targets, opening_proof, degree_bits: _ } = proof_targets;
+    walk_commitments(&mut w, "/proof/commitments", "trace", commitments_targets);
+    walk_opened_values(&mut w, "/proof/opened_values", opened_values_targets);
+    opening_proof.walk(&mut w, "/proof/opening_proof");
+    if let Some(c) = preprocessed_commit {
         walk_cap(&mut w, "/preprocessed_commit", c);
     }
     w
@@ -367,10 +394,12 @@ where
     OP: Recursive<SC::Challenge, Input = PcsProof<SC>> + OpeningProofWalk,
 {
     let mut w = Walk::default();
-    for (k, ts) in inputs.air_public_targets.iter().enumerate() {
+    let BatchStarkVerifierInputsBuilder { air_public_targets, proof_targets, common_data: _ } = inputs;
+    for (k, ts) in air_public_targets.iter().enumerate() {
         w.base_vec(&format!("/public_values/{k}"), ts);
     }
-    let pt = &inputs.proof_targets;
+    // `BatchProofTargets` has a pub(crate) field (per-instance opened values): no exhaustive pattern
+    let pt = proof_targets;
     walk_commitments(&mut w, "/proof/commitments", "main", &pt.commitments_targets);
     walk_flattened_batch_opened_values(
         &mut w,
@@ -391,7 +420,6 @@ where
         w.unreachable
             .push("CommonDataTargets::preprocessed.commitment (pub(crate)): /common/preprocessed/commitment/cap/*/*".into());
     }
-    let _ = &inputs.common_data;
     w
 }
 
